@@ -63,6 +63,15 @@ Proof. exact dump_load. Qed.
 Theorem C13_load_injective : forall e d q q', In q (state_keys e d) -> In q' (state_keys e d) ->
   fwd beq (l_states (load e d)) q = fwd beq (l_states (load e d)) q' -> q = q'.
 Proof. exact load_injective. Qed.
+(* the finite-automaton encoding: a description with arities 0 and 1 only loads; the dump returns the
+   final states, the unary rules, the start states and one nullary rule per start state, whichever
+   start symbol the implementation picks; other descriptions are refused *)
+Theorem C13_dump_load_fa : forall d, is_fa d = true ->
+  forall pick : list N -> N, (forall l, l <> nil -> In (pick l) l) ->
+  exists l fr, load_fa d = Some l /\ dump_fa pick l = Some fr /\ fa_same d (dumped_desc fr) = true.
+Proof. exact dump_load_fa. Qed.
+Theorem C13_load_fa_guard : forall d, is_fa d = false -> load_fa d = None.
+Proof. exact load_fa_guard. Qed.
 (* dump -> text -> parse -> load -> dump gives the same final states and rules under the same names *)
 Theorem C13_dump_text_load_dump : forall e d, wf_desc d = true ->
   exists fr, dump (load e d) = Some fr /\
@@ -84,3 +93,5 @@ Print Assumptions C13_fa_same.
 Print Assumptions C13_dump_load.
 Print Assumptions C13_load_injective.
 Print Assumptions C13_dump_text_load_dump.
+Print Assumptions C13_dump_load_fa.
+Print Assumptions C13_load_fa_guard.
